@@ -424,4 +424,374 @@ Proof.
   destruct (split_leb bs) as [[e r]|].
   - destruct ((length e <=? 10)%nat && in_i64 (sval e)); split; discriminate.
   - destruct (10 <=? length bs)%nat; split; discriminate.
+(* ================= the 16-bit reader ================= *)
+
+Definition uleb16_spec (bs : list byte) : res (N * list byte) :=
+  match split_leb bs with
+  | None => if (3 <=? length bs)%nat then Err EBadUnsignedLeb128 else Err EUnexpectedEof
+  | Some (enc, rest) =>
+      if (length enc <=? 3)%nat && (uval enc <? 2 ^ 16) then Ok (uval enc, rest)
+      else Err EBadUnsignedLeb128
+  end.
+
+Lemma wrap16_shl7 (l : N) : l < 128 -> wrap16 (N.shiftl l 7) = l * 128.
+Proof.
+  intros H. unfold wrap16, two16. rewrite N.shiftl_mul_pow2. change (2 ^ 7) with 128.
+  apply N.mod_small. lia.
+Qed.
+
+Lemma wrap16_shl14 (l : N) : l <= 3 -> wrap16 (N.shiftl l 14) = l * 16384.
+Proof.
+  intros H. unfold wrap16, two16. rewrite N.shiftl_mul_pow2. change (2 ^ 14) with 16384.
+  apply N.mod_small. lia.
+Qed.
+
+Theorem read_uleb128_u16_exact bs : read_uleb128_u16 bs = uleb16_spec bs.
+Proof.
+  unfold read_uleb128_u16, uleb16_spec.
+  destruct bs as [|b0 r0]; [reflexivity|].
+  cbn [read_u8 bind split_leb]. rewrite cont_bit_has_cont.
+  pose proof (byte_split b0) as Hs0. pose proof (low7_lt b0) as Hl0.
+  destruct (has_cont (b2n b0)) eqn:Hc0; cbn [negb].
+  2:{ cbn [uval length]. rewrite land127_low7. change (2 ^ 16) with 65536.
+      destruct ((1 <=? 3)%nat && (low7 (b2n b0) + 128 * 0 <? 65536)) eqn:E; [|lia].
+      apply ok_pair_eq. lia. }
+  destruct r0 as [|b1 r1]; [reflexivity|].
+  cbn [read_u8 bind split_leb]. rewrite cont_bit_has_cont.
+  pose proof (byte_split b1) as Hs1. pose proof (low7_lt b1) as Hl1.
+  rewrite (wrap16_shl7 _ Hl1).
+  replace (low7 (b2n b1) * 128) with (N.shiftl (low7 (b2n b1)) 7)
+    by (rewrite N.shiftl_mul_pow2; reflexivity).
+  rewrite lor_shiftl_add by (change (2 ^ 7) with 128; exact Hl0).
+  rewrite N.shiftl_mul_pow2. change (2 ^ 7) with 128.
+  destruct (has_cont (b2n b1)) eqn:Hc1; cbn [negb].
+  2:{ cbn [uval length]. rewrite !land127_low7. change (2 ^ 16) with 65536.
+      match goal with |- _ = (if ?c then _ else _) => destruct c eqn:E end; [|lia].
+      apply ok_pair_eq. lia. }
+  destruct r1 as [|b2 r2]; [reflexivity|].
+  cbn [read_u8 bind split_leb]. rewrite cont_bit_has_cont.
+  pose proof (byte_split b2) as Hs2. pose proof (low7_lt b2) as Hl2.
+  destruct (has_cont (b2n b2)) eqn:Hc2.
+  - (* third byte has the continuation bit: > 3 *)
+    destruct (3 <? b2n b2) eqn:E3; [|lia].
+    destruct (split_leb r2) as [[e rest]|] eqn:Hsp.
+    + pose proof (split_leb_nonempty _ _ _ Hsp). cbn [length].
+      match goal with |- _ = (if ?c then _ else _) => destruct c eqn:E end; [lia|reflexivity].
+    + cbn [length]. destruct (3 <=? S (S (S (length r2))))%nat eqn:E; [reflexivity|lia].
+  - cbn [uval length]. rewrite !land127_low7. change (2 ^ 16) with 65536.
+    destruct (3 <? b2n b2) eqn:E3.
+    + match goal with |- _ = (if ?c then _ else _) => destruct c eqn:E end; [lia|reflexivity].
+    + rewrite wrap16_shl14 by lia. unfold two16.
+      match goal with |- (if ?c then _ else _) = _ => destruct c eqn:E end; [|lia].
+      match goal with |- _ = (if ?c then _ else _) => destruct c eqn:E' end; [|lia].
+      apply ok_pair_eq. lia.
+Qed.
+
+Lemma read_uleb128_u16_no_panic bs : read_uleb128_u16 bs <> Panic /\ read_uleb128_u16 bs <> OutOfFuel.
+Proof.
+  rewrite read_uleb128_u16_exact. unfold uleb16_spec.
+  destruct (split_leb bs) as [[e rest]|].
+  - destruct ((length e <=? 3)%nat && (uval e <? 2 ^ 16)); split; discriminate.
+  - destruct (3 <=? length bs)%nat; split; discriminate.
+Qed.
+
+(* ================= u32 narrowing ================= *)
+
+Definition uleb32_spec (bs : list byte) : res (N * list byte) :=
+  match split_leb bs with
+  | None => if (10 <=? length bs)%nat then Err EBadUnsignedLeb128 else Err EUnexpectedEof
+  | Some (enc, rest) =>
+      if (length enc <=? 10)%nat && (uval enc <? 2 ^ 32) then Ok (uval enc, rest)
+      else Err EBadUnsignedLeb128
+  end.
+
+Theorem read_uleb128_u32_exact dbg bs : read_uleb128_u32 dbg bs = uleb32_spec bs.
+Proof.
+  unfold read_uleb128_u32, uleb32_spec. rewrite read_uleb128_exact. unfold uleb_spec.
+  destruct (split_leb bs) as [[e rest]|].
+  - change (2 ^ 64) with 18446744073709551616. change (2 ^ 32) with 4294967296. unfold two32.
+    destruct ((length e <=? 10)%nat && (uval e <? 18446744073709551616)) eqn:E1; cbn [bind].
+    + destruct (uval e <? 4294967296) eqn:E2.
+      * destruct ((length e <=? 10)%nat && true) eqn:E3; [reflexivity|lia].
+      * destruct ((length e <=? 10)%nat && false) eqn:E3; [lia|reflexivity].
+    + destruct ((length e <=? 10)%nat && (uval e <? 4294967296)) eqn:E3; [lia|reflexivity].
+  - destruct (10 <=? length bs)%nat; reflexivity.
+Qed.
+
+(* narrowing view: relative to the 64-bit reader *)
+Lemma read_uleb128_u32_narrow dbg bs :
+  read_uleb128_u32 dbg bs =
+  match read_uleb128 dbg bs with
+  | Ok (v, rest) => if v <? 2 ^ 32 then Ok (v, rest) else Err EBadUnsignedLeb128
+  | Err e => Err e
+  | Panic => Panic
+  | OutOfFuel => OutOfFuel
+  end.
+Proof.
+  unfold read_uleb128_u32. destruct (read_uleb128 dbg bs) as [[v r]| | |]; reflexivity.
+Qed.
+
+(* ================= skip ================= *)
+
+Theorem skip_leb_exact bs :
+  skip_leb bs = match split_leb bs with
+                | Some (_, rest) => Ok (tt, rest)
+                | None => Err EUnexpectedEof
+                end.
+Proof.
+  induction bs as [|b r IH]; [reflexivity|].
+  cbn [skip_leb split_leb]. rewrite cont_bit_has_cont.
+  destruct (has_cont (b2n b)); [|reflexivity].
+  rewrite IH. destruct (split_leb r) as [[e rest]|]; reflexivity.
+Qed.
+
+(* ================= writers ================= *)
+
+Fixpoint p128 (n : nat) : N := match n with O => 1 | S k => 128 * p128 k end.
+
+Lemma p128_pos n : 0 < p128 n.
+Proof. induction n; cbn [p128]; lia. Qed.
+
+Lemma p128_pow n : 2 ^ (7 * N.of_nat n) = p128 n.
+Proof.
+  induction n as [|n IH]; [reflexivity|].
+  replace (7 * N.of_nat (S n)) with (7 + 7 * N.of_nat n) by lia.
+  rewrite N.pow_add_r, IH. reflexivity.
+Qed.
+
+Lemma p128_half n : 2 ^ (7 * N.of_nat (S n) - 1) = 64 * p128 n.
+Proof.
+  replace (7 * N.of_nat (S n) - 1) with (6 + 7 * N.of_nat n) by lia.
+  rewrite N.pow_add_r, p128_pow. reflexivity.
+Qed.
+
+Lemma small_byte (x : N) : x < 128 ->
+  b2n (n2b x) = x /\ has_cont x = false /\ low7 x = x.
+Proof.
+  intros H. assert (Hb : b2n (n2b x) = x) by (apply b2n_n2b_small; lia).
+  pose proof (byte_split (n2b x)) as Hs. pose proof (low7_lt (n2b x)) as Hl.
+  rewrite Hb in Hs, Hl. destruct (has_cont x); [lia|]. repeat split; lia.
+Qed.
+
+Lemma cont_byte (x : N) : x < 128 ->
+  N.lor x CONT = x + 128 /\ b2n (n2b (x + 128)) = x + 128 /\
+  has_cont (x + 128) = true /\ low7 (x + 128) = x.
+Proof.
+  intros H. unfold CONT.
+  assert (Hlor : N.lor x 128 = x + 128).
+  { change 128 with (N.shiftl 1 7). apply lor_shiftl_add. change (2 ^ 7) with 128. exact H. }
+  assert (Hb : b2n (n2b (x + 128)) = x + 128) by (apply b2n_n2b_small; lia).
+  pose proof (byte_split (n2b (x + 128))) as Hs. pose proof (low7_lt (n2b (x + 128))) as Hl.
+  rewrite Hb in Hs, Hl. destruct (has_cont (x + 128)); [|lia]. repeat split; lia.
+Qed.
+
+Lemma low7_land255 (v : N) : low7 (N.land v 255) = v mod 128.
+Proof.
+  unfold low7. change 255 with (N.ones 8). change 127 with (N.ones 7).
+  rewrite !N.land_ones. change (2 ^ 8) with 256. change (2 ^ 7) with 128.
+  pose proof (N.mod_lt v 256). pose proof (N.mod_lt v 128). pose proof (N.mod_lt (v mod 256) 128).
+  pose proof (N.div_mod v 256). pose proof (N.div_mod v 128). pose proof (N.div_mod (v mod 256) 128).
+  lia.
+Qed.
+
+Lemma shiftr7 (v : N) : N.shiftr v 7 = v / 128.
+Proof. rewrite N.shiftr_div_pow2. reflexivity. Qed.
+
+Lemma write_uleb_fuel_S f v :
+  write_uleb_fuel (S f) v =
+  if v / 128 =? 0 then Ok [n2b (v mod 128)]
+  else let* rest := write_uleb_fuel f (v / 128) in Ok (n2b (N.lor (v mod 128) CONT) :: rest).
+Proof. cbn [write_uleb_fuel]. rewrite low7_land255, shiftr7. reflexivity. Qed.
+
+Lemma uleb_size_fuel_S f v :
+  uleb_size_fuel (S f) v = if v / 128 =? 0 then 1 else 1 + uleb_size_fuel f (v / 128).
+Proof. cbn [uleb_size_fuel]. rewrite shiftr7. reflexivity. Qed.
+
+(* what the unsigned writer produces, for any fuel that covers the value *)
+Lemma write_uleb_fuel_ok : forall f v, v < 128 * p128 f ->
+  exists enc, write_uleb_fuel (S f) v = Ok enc /\
+    uval enc = v /\ N.of_nat (length enc) = uleb_size_fuel (S f) v /\
+    (1 <= length enc <= S f)%nat /\
+    forall r, split_leb (enc ++ r) = Some (enc, r).
+Proof.
+  induction f as [|f IH]; intros v Hv.
+  - cbn [p128] in Hv. rewrite write_uleb_fuel_S, uleb_size_fuel_S.
+    assert (Hq : v / 128 = 0) by (apply N.div_small; lia).
+    assert (Hm : v mod 128 = v) by (apply N.mod_small; lia).
+    rewrite Hq, Hm. cbn [N.eqb].
+    destruct (small_byte v) as (Hb & Hc & Hl); [lia|].
+    exists [n2b v]. split; [reflexivity|]. cbn [uval length app split_leb].
+    rewrite cont_bit_has_cont, land127_low7, Hb, Hc, Hl.
+    repeat split; lia.
+  - cbn [p128] in Hv. rewrite write_uleb_fuel_S, (uleb_size_fuel_S (S f)).
+    pose proof (N.div_mod v 128) as Hdm. pose proof (N.mod_lt v 128) as Hml.
+    set (q := v / 128) in *. set (m := v mod 128) in *.
+    destruct (q =? 0) eqn:Eq.
+    + assert (Hm : m = v) by lia. rewrite Hm.
+      destruct (small_byte v) as (Hb & Hc & Hl); [lia|].
+      exists [n2b v]. split; [reflexivity|]. cbn [uval length app split_leb].
+      rewrite cont_bit_has_cont, land127_low7, Hb, Hc, Hl.
+      repeat split; lia.
+    + destruct (IH q) as (enc & Hw & Hu & Hlen & Hrange & Hsplit).
+      { pose proof (p128_pos f). cbn [p128] in *. lia. }
+      rewrite Hw. cbn [bind].
+      destruct (cont_byte m) as (Hlor & Hb & Hc & Hl); [lia|].
+      rewrite Hlor.
+      exists (n2b (m + 128) :: enc). split; [reflexivity|].
+      cbn [uval length app split_leb].
+      rewrite cont_bit_has_cont, land127_low7, Hb, Hc, Hl, Hu.
+      split; [lia|]. split.
+      { lia. }
+      split; [lia|].
+      intros r. rewrite Hsplit. reflexivity.
+Qed.
+
+Lemma uleb128_size_range v : v < two64 -> 1 <= uleb128_size v <= 10.
+Proof.
+  intros Hv. destruct (write_uleb_fuel_ok 9 v) as (enc & _ & _ & Hlen & Hr & _).
+  { unfold two64 in Hv. change (128 * p128 9) with 1180591620717411303424. lia. }
+  unfold uleb128_size. lia.
+Qed.
+
+Theorem write_uleb128_read v : v < two64 ->
+  exists enc, write_uleb128 v = Ok enc /\
+    uval enc = v /\
+    N.of_nat (length enc) = uleb128_size v /\ (1 <= length enc <= 10)%nat /\
+    forall r, split_leb (enc ++ r) = Some (enc, r) /\
+              forall dbg, read_uleb128 dbg (enc ++ r) = Ok (v, r).
+Proof.
+  intros Hv. destruct (write_uleb_fuel_ok 9 v) as (enc & Hw & Hu & Hlen & Hr & Hsplit).
+  { unfold two64 in Hv. change (128 * p128 9) with 1180591620717411303424. lia. }
+  exists enc. split; [exact Hw|]. split; [exact Hu|]. split; [exact Hlen|]. split; [exact Hr|].
+  intros r. split; [apply Hsplit|]. intros dbg.
+  rewrite read_uleb128_exact. unfold uleb_spec. rewrite Hsplit, Hu.
+  change (2 ^ 64) with two64.
+  destruct ((length enc <=? 10)%nat && (v <? two64)) eqn:E; [reflexivity|lia].
+Qed.
+
+(* ---- signed writer ---- *)
+
+Lemma lor128_byte (b : byte) : N.lor (b2n b) CONT = low7 (b2n b) + 128.
+Proof. destruct b; vm_compute; reflexivity. Qed.
+
+Lemma land127_mod (x : N) : N.land x 127 = x mod 128.
+Proof. change 127 with (N.ones 7). rewrite N.land_ones. reflexivity. Qed.
+
+Section WithDivMod.
+Local Ltac Zify.zify_post_hook ::= Z.div_mod_to_equations.
+
+Lemma sleb_done_iff (v : Z) :
+  ((Z.shiftr v 6 =? 0) || (Z.shiftr v 6 =? -1))%Z = ((-64 <=? v) && (v <? 64))%Z.
+Proof. rewrite Z.shiftr_div_pow2 by lia. change (2 ^ 6)%Z with 64%Z. lia. Qed.
+
+Lemma sleb_next (v : Z) : Z.shiftr (Z.shiftr v 6) 1 = (v / 128)%Z.
+Proof.
+  rewrite !Z.shiftr_div_pow2 by lia. change (2 ^ 6)%Z with 64%Z. change (2 ^ 1)%Z with 2%Z. lia.
+Qed.
+
+Lemma sleb_low (v : Z) : N.land (Z.to_N (v mod 256)) 127 = Z.to_N (v mod 128).
+Proof. rewrite land127_mod. lia. Qed.
+
+Lemma sleb_high (v : Z) : N.lor (Z.to_N (v mod 256)) CONT = Z.to_N (v mod 128) + 128.
+Proof.
+  assert (Hb : b2n (n2b (Z.to_N (v mod 256))) = Z.to_N (v mod 256)) by (apply b2n_n2b_small; lia).
+  rewrite <- Hb, lor128_byte, Hb. unfold low7. rewrite land127_mod. lia.
+Qed.
+End WithDivMod.
+
+Lemma write_sleb_fuel_S f v :
+  write_sleb_fuel (S f) v =
+  if ((-64 <=? v) && (v <? 64))%Z then Ok [n2b (Z.to_N (v mod 128))]
+  else let* rest := write_sleb_fuel f (v / 128) in Ok (n2b (Z.to_N (v mod 128) + 128) :: rest).
+Proof. cbn [write_sleb_fuel]. rewrite sleb_done_iff, sleb_next, sleb_low, sleb_high. reflexivity. Qed.
+
+Lemma sleb_size_fuel_S f v :
+  sleb_size_fuel (S f) v =
+  if ((-64 <=? v) && (v <? 64))%Z then 1 else 1 + sleb_size_fuel f (v / 128).
+Proof. cbn [sleb_size_fuel]. rewrite sleb_done_iff, sleb_next. reflexivity. Qed.
+
+Lemma write_sleb_fuel_ok : forall f v,
+  (- 64 * Z.of_N (p128 f) <= v < 64 * Z.of_N (p128 f))%Z ->
+  exists enc n, write_sleb_fuel (S f) v = Ok enc /\
+    length enc = S n /\ (n <= f)%nat /\
+    N.of_nat (length enc) = sleb_size_fuel (S f) v /\
+    Z.of_N (uval enc) = (v mod (128 * Z.of_N (p128 n)))%Z /\
+    (- 64 * Z.of_N (p128 n) <= v < 64 * Z.of_N (p128 n))%Z /\
+    forall r, split_leb (enc ++ r) = Some (enc, r).
+Proof.
+  induction f as [|f IH]; intros v Hv; rewrite write_sleb_fuel_S, sleb_size_fuel_S.
+  - cbn [p128] in Hv.
+    destruct ((-64 <=? v) && (v <? 64))%Z eqn:E; [|lia].
+    pose proof (Z.mod_pos_bound v 128 ltac:(lia)) as Hm.
+    destruct (small_byte (Z.to_N (v mod 128))) as (Hb & Hc & Hl); [lia|].
+    exists [n2b (Z.to_N (v mod 128))], O. split; [reflexivity|].
+    cbn [uval length app split_leb p128].
+    rewrite cont_bit_has_cont, land127_low7, Hb, Hc, Hl.
+    repeat split; try lia.
+  - destruct ((-64 <=? v) && (v <? 64))%Z eqn:E.
+    + pose proof (Z.mod_pos_bound v 128 ltac:(lia)) as Hm.
+      destruct (small_byte (Z.to_N (v mod 128))) as (Hb & Hc & Hl); [lia|].
+      exists [n2b (Z.to_N (v mod 128))], O. split; [reflexivity|].
+      cbn [uval length app split_leb p128].
+      rewrite cont_bit_has_cont, land127_low7, Hb, Hc, Hl.
+      repeat split; try lia.
+    + pose proof (Z.mod_pos_bound v 128 ltac:(lia)) as Hm.
+      pose proof (Z.div_mod v 128 ltac:(lia)) as Hdm.
+      set (q := (v / 128)%Z) in *. set (m := (v mod 128)%Z) in *.
+      pose proof (p128_pos f) as Hpf.
+      destruct (IH q) as (enc & n & Hw & Hlen & Hn & Hsz & Hu & Hrange & Hsplit).
+      { cbn [p128] in Hv. lia. }
+      rewrite Hw. cbn [bind].
+      destruct (cont_byte (Z.to_N m)) as (_ & Hb & Hc & Hl); [lia|].
+      exists (n2b (Z.to_N m + 128) :: enc), (S n). split; [reflexivity|].
+      cbn [uval length app split_leb].
+      rewrite cont_bit_has_cont, land127_low7, Hb, Hc, Hl.
+      pose proof (p128_pos n) as Hpn.
+      split; [lia|]. split; [lia|]. split; [lia|]. split.
+      { cbn [p128].
+        replace (128 * Z.of_N (128 * p128 n))%Z with (128 * (128 * Z.of_N (p128 n)))%Z by lia.
+        rewrite Z.rem_mul_r by lia. fold q m. lia. }
+      split.
+      { cbn [p128]. lia. }
+      intros r. rewrite Hsplit. reflexivity.
+Qed.
+
+Lemma sval_of_parts enc n v :
+  length enc = S n ->
+  Z.of_N (uval enc) = (v mod (128 * Z.of_N (p128 n)))%Z ->
+  (- 64 * Z.of_N (p128 n) <= v < 64 * Z.of_N (p128 n))%Z ->
+  sval enc = v.
+Proof.
+  intros Hlen Hu Hr. unfold sval. rewrite Hlen, p128_half, p128_pow. cbn [p128].
+  pose proof (p128_pos n) as Hp.
+  set (M := (128 * Z.of_N (p128 n))%Z) in *.
+  destruct (Z.neg_nonneg_cases v) as [Hneg|Hpos].
+  - assert (Hm : (v mod M = v + M)%Z).
+    { rewrite <- (Z.mod_add v 1 M) by lia. rewrite Z.mod_small by lia. lia. }
+    destruct (uval enc <? 64 * p128 n) eqn:E; lia.
+  - assert (Hm : (v mod M = v)%Z) by (apply Z.mod_small; lia).
+    destruct (uval enc <? 64 * p128 n) eqn:E; lia.
+Qed.
+
+Theorem write_sleb128_read v : in_i64 v = true ->
+  exists enc, write_sleb128 v = Ok enc /\
+    sval enc = v /\
+    N.of_nat (length enc) = sleb128_size v /\ (1 <= length enc <= 10)%nat /\
+    forall r, split_leb (enc ++ r) = Some (enc, r) /\
+              forall dbg, read_sleb128 dbg (enc ++ r) = Ok (v, r).
+Proof.
+  intros Hv. unfold in_i64 in Hv.
+  destruct (write_sleb_fuel_ok 9 v) as (enc & n & Hw & Hlen & Hn & Hsz & Hu & Hrange & Hsplit).
+  { change (p128 9) with 9223372036854775808. lia. }
+  pose proof (sval_of_parts enc n v Hlen Hu Hrange) as Hs.
+  exists enc. split; [exact Hw|]. split; [exact Hs|]. split; [exact Hsz|]. split; [lia|].
+  intros r. split; [apply Hsplit|]. intros dbg.
+  rewrite read_sleb128_exact. unfold sleb_spec. rewrite Hsplit, Hs.
+  unfold in_i64.
+  match goal with |- (if ?c then _ else _) = _ => destruct c eqn:E end; [reflexivity|lia].
+Qed.
+
+Lemma sleb128_size_range v : in_i64 v = true -> 1 <= sleb128_size v <= 10.
+Proof.
+  intros Hv. destruct (write_sleb128_read v Hv) as (enc & _ & _ & Hsz & Hr & _). lia.
 Qed.
